@@ -16,6 +16,8 @@ CONSTANTS
   PForms <- PfPlain
   Containers <- CtList
   OvKVals <- Ov3
+  SForms <- SfList
+  KeySortSeq <- SortIon
   Configs <- CfgFew
   Comp <- CompDef
 INVARIANT FreeVsInlinedAgree
